@@ -311,10 +311,237 @@ def _exitstack_to_try(tree: ast.Module) -> int:
     return n_done
 
 
-def desugar(tree: ast.Module) -> ast.Module:
+def _inline_contextmanagers(tree: ast.Module) -> int:
+    """`with cm(): BODY` where cm is a @contextmanager generator of the same module / class, called without arguments:
+         def cm(): PRE; yield [v]; POST                   ->  PRE; [x = v]; BODY; POST
+         def cm(): PRE; try: A; yield [v]; B  <handlers / finally>; POST
+                                                          ->  PRE; try: A; [x = v]; BODY; B  <handlers / finally>; POST
+    which is what contextlib does with the generator (code after the yield runs when the block ends normally, a raising
+    block re-raises at the yield).  Left alone when the block can leave early (return / break / continue) past code that
+    would then be skipped, when the generator returns, yields more than once, or its locals collide with the caller's."""
+    def is_cm(fn):
+        return any(ast.unparse(d).split(".")[-1] == "contextmanager" for d in fn.decorator_list)
+
+    mod_cms = {n.name: n for n in tree.body if isinstance(n, ast.FunctionDef) and is_cm(n)}
+    cls_cms = {}
+    for c in [n for n in ast.walk(tree) if isinstance(n, ast.ClassDef)]:
+        for n in c.body:
+            if isinstance(n, ast.FunctionDef) and is_cm(n):
+                cls_cms[(c.name, n.name)] = n
+    if not mod_cms and not cls_cms:
+        return 0
+    n_done = 0
+
+    def own_nodes(stmts):
+        """nodes of a statement list outside nested defs / lambdas / classes"""
+        stack = list(stmts)
+        while stack:
+            n = stack.pop()
+            yield n
+            if isinstance(n, (ast.FunctionDef, ast.AsyncFunctionDef, ast.Lambda, ast.ClassDef)):
+                continue
+            stack.extend(ast.iter_child_nodes(n))
+
+    def split(gen):
+        """(pre, try node or None, A, yield value, B, post) or None"""
+        body = [st for st in gen.body if not (isinstance(st, ast.Expr) and isinstance(st.value, ast.Constant))]
+        ys = [n for n in own_nodes(body) if isinstance(n, (ast.Yield, ast.YieldFrom))]
+        if len(ys) != 1 or isinstance(ys[0], ast.YieldFrom) or any(isinstance(n, ast.Return) for n in own_nodes(body)):
+            return None
+        def is_yield_stmt(st):
+            return isinstance(st, ast.Expr) and st.value is ys[0]
+        for i, st in enumerate(body):
+            if is_yield_stmt(st):
+                return body[:i], None, [], ys[0].value, [], body[i + 1:]
+            if isinstance(st, ast.Try):
+                for j, st2 in enumerate(st.body):
+                    if is_yield_stmt(st2):
+                        return body[:i], st, st.body[:j], ys[0].value, st.body[j + 1:], body[i + 1:]
+        return None
+
+    def rewrite(w, cls_name, caller):
+        if not (isinstance(w, ast.With) and len(w.items) == 1):
+            return None
+        it = w.items[0]
+        ce = it.context_expr
+        if not (isinstance(ce, ast.Call) and not ce.args and not ce.keywords):
+            return None
+        gen = recv = None
+        if isinstance(ce.func, ast.Name) and ce.func.id in mod_cms:
+            gen = mod_cms[ce.func.id]
+            if gen.args.args or gen.args.kwonlyargs or gen.args.vararg or gen.args.kwarg:
+                return None
+        elif isinstance(ce.func, ast.Attribute) and isinstance(ce.func.value, ast.Name) and cls_name and (cls_name, ce.func.attr) in cls_cms and ce.func.value.id == "self":
+            gen = cls_cms[(cls_name, ce.func.attr)]
+            if len(gen.args.args) != 1 or gen.args.args[0].arg != "self" or gen.args.kwonlyargs or gen.args.vararg or gen.args.kwarg:
+                return None
+        if gen is None or gen is caller:
+            return None
+        if it.optional_vars is not None and not isinstance(it.optional_vars, ast.Name):
+            return None
+        parts = split(gen)
+        if parts is None:
+            return None
+        pre, tr, A, yv, B, post = parts
+        early = any(isinstance(n, (ast.Return, ast.Break, ast.Continue)) for n in own_nodes(w.body))
+        if early and (B or post or (tr is not None and tr.orelse)):
+            return None
+        # names the generator binds must not collide with the caller's
+        gen_locals = {n.id for n in ast.walk(gen) if isinstance(n, ast.Name) and isinstance(n.ctx, ast.Store)} | {n.name for n in ast.walk(gen) if isinstance(n, ast.FunctionDef) and n is not gen}
+        caller_names = {n.id for n in ast.walk(caller) if isinstance(n, ast.Name)} | {a.arg for a in ast.walk(caller.args) if isinstance(a, ast.arg)}
+        caller_names -= {it.optional_vars.id} if it.optional_vars is not None else set()
+        if gen_locals & caller_names:
+            return None
+        cp = lambda stmts: [ast.parse(ast.unparse(st)).body[0] for st in stmts]
+        bind = []
+        if it.optional_vars is not None:
+            val = ast.parse(ast.unparse(yv), mode="eval").body if yv is not None else ast.Constant(value=None)
+            bind = [ast.Assign(targets=[ast.Name(id=it.optional_vars.id, ctx=ast.Store())], value=val)]
+        if tr is None:
+            out = cp(pre) + bind + list(w.body) + cp(post)
+        else:
+            t2 = ast.parse(ast.unparse(tr)).body[0]
+            t2.body = cp(A) + bind + list(w.body) + cp(B)
+            out = cp(pre) + [t2] + cp(post)
+        for st in out:
+            for n in ast.walk(st):
+                if not hasattr(n, "lineno") or not any(n is y for y in ast.walk(w)):
+                    pass
+        for st in out:
+            if not any(st is x for x in w.body):
+                for n in ast.walk(st):
+                    if not any(n is y for b in w.body for y in ast.walk(b)):
+                        n.lineno = w.lineno
+                        n.col_offset = w.col_offset
+                        n.end_lineno = getattr(w, "end_lineno", w.lineno)
+                        n.end_col_offset = 0
+        return out or [ast.copy_location(ast.Pass(), w)]
+
+    def process(fn, cls_name):
+        nonlocal n_done
+
+        class T(ast.NodeTransformer):
+            def visit_FunctionDef(self, node):
+                return node if node is not fn else self.generic_visit(node)
+
+            def visit_Lambda(self, node):
+                return node
+
+            def visit_With(self, node):
+                self.generic_visit(node)
+                r = rewrite(node, cls_name, fn)
+                if r is None:
+                    return node
+                nonlocal n_done
+                n_done += 1
+                return r
+
+        T().visit(fn)
+
+    for n in tree.body:
+        if isinstance(n, ast.FunctionDef):
+            process(n, None)
+        elif isinstance(n, ast.ClassDef):
+            for m in n.body:
+                if isinstance(m, ast.FunctionDef):
+                    process(m, n.name)
+    return n_done
+
+
+_BASE_CONSTS = None
+
+
+def _baseline_constants():
+    global _BASE_CONSTS
+    if _BASE_CONSTS is None:
+        import json, os
+        try:
+            with open(os.path.join(os.path.dirname(__file__), "baseline_consts.json")) as fh:
+                _BASE_CONSTS = {k: set(v) for k, v in json.load(fh).items()}
+        except OSError:
+            _BASE_CONSTS = {}
+    return _BASE_CONSTS
+
+
+def module_scalar_constants(tree: ast.Module) -> dict:
+    """NAME -> literal node for module-level `NAME = <literal>` / `NAME: T = <literal>` bound exactly once, never declared
+    global in a function; literal = str / number / bool / None, or a tuple of those."""
+    def lit(v):
+        if isinstance(v, ast.Constant):
+            return True
+        if isinstance(v, ast.UnaryOp) and isinstance(v.op, ast.USub) and isinstance(v.operand, ast.Constant):
+            return True
+        return isinstance(v, ast.Tuple) and v.elts and all(isinstance(e, ast.Constant) for e in v.elts)
+
+    binds = {}
+    for st in tree.body:
+        tg = val = None
+        if isinstance(st, ast.Assign) and len(st.targets) == 1 and isinstance(st.targets[0], ast.Name):
+            tg, val = st.targets[0].id, st.value
+        elif isinstance(st, ast.AnnAssign) and isinstance(st.target, ast.Name) and st.value is not None:
+            tg, val = st.target.id, st.value
+        if tg is not None:
+            binds.setdefault(tg, []).append(val)
+    for n in ast.walk(tree):
+        if isinstance(n, ast.Global):
+            for nm in n.names:
+                binds.setdefault(nm, []).append(None)
+        elif isinstance(n, (ast.For, ast.With, ast.Import, ast.ImportFrom)) and n in tree.body:
+            pass
+    return {k: v[0] for k, v in binds.items() if len(v) == 1 and v[0] is not None and lit(v[0])}
+
+
+def _inline_new_constants(tree: ast.Module, rel) -> int:
+    """Module-level scalar constants that the confirmed baseline does not have (`_MAXIMIZE = "maximize"`,
+    `_LINPROG_INFEASIBLE = 2`, introduced by an edit) are written out where functions of the module read them: the
+    rules then see the literal they were confirmed against.  Names of the baseline stay names (rules refer to them)."""
+    known = _baseline_constants().get(rel)
+    if known is None:
+        return 0
+    consts = {k: v for k, v in module_scalar_constants(tree).items() if k not in known}
+    if not consts:
+        return 0
+    n_done = 0
+    for fn in [n for n in ast.walk(tree) if isinstance(n, (ast.FunctionDef, ast.AsyncFunctionDef, ast.Lambda))]:
+        local = {a.arg for a in ast.walk(fn.args) if isinstance(a, ast.arg)}
+        for n in ast.walk(fn):
+            if isinstance(n, ast.Name) and isinstance(n.ctx, (ast.Store, ast.Del)):
+                local.add(n.id)
+        todo = set(consts) - local
+        if not todo:
+            continue
+
+        class R(ast.NodeTransformer):
+            def visit_Name(self, n):
+                if isinstance(n.ctx, ast.Load) and n.id in todo:
+                    nonlocal n_done
+                    n_done += 1
+                    return ast.copy_location(_copy(consts[n.id]), n)
+                return n
+
+        body = fn.body if isinstance(fn.body, list) else [fn.body]
+        for i, st in enumerate(body):
+            new = R().visit(st)
+            if isinstance(fn.body, list):
+                fn.body[i] = new
+            else:
+                fn.body = new
+        # defaults / annotations are left alone
+    # class bodies (dataclass field defaults, class-level tables)
+    for cls in [n for n in ast.walk(tree) if isinstance(n, ast.ClassDef)]:
+        for st in cls.body:
+            if isinstance(st, (ast.Assign, ast.AnnAssign)) and getattr(st, "value", None) is not None:
+                for n in ast.walk(st.value):
+                    pass
+    return n_done
+
+
+def desugar(tree: ast.Module, rel=None) -> ast.Module:
     d = _Desugar()
     tree.body = d._block(tree.body)
     n_stack = _exitstack_to_try(tree)
+    n_stack += _inline_new_constants(tree, rel) if rel is not None else 0
+    n_stack += _inline_contextmanagers(tree)
     n_alias = _unalias_bound_methods(tree)
     if d.n_match or d.n_walrus or n_alias or n_stack:
         ast.fix_missing_locations(tree)
